@@ -16,14 +16,72 @@ import (
 
 type Bounds struct{ Str, Slice, Map, Depth int }
 
-var B = Bounds{Str: 1, Slice: 1, Map: 1, Depth: 2}
+var (
+	smallB = Bounds{Str: 1, Slice: 1, Map: 1, Depth: 2}
+	bigB   = Bounds{Str: 2, Slice: 2, Map: 2, Depth: 3}
+)
 
+var B = smallB
+
+// Focus selects which top-level field of the root struct gets the larger
+// (thorough) bounds; -1: none. The thorough tier explores one variant per
+// field, so the cost grows with the number of fields rather than with the
+// product of their shape spaces.
+var Focus = -1
+
+var structDepth int
+
+// setBounds: quick = small bounds; thorough = large bounds everywhere (used by
+// the hand-written harnesses over small types).
 func setBounds() {
+	Focus = -1
 	if vrt.Thorough() {
-		B = Bounds{Str: 2, Slice: 2, Map: 2, Depth: 3}
+		B = bigB
 	} else {
-		B = Bounds{Str: 1, Slice: 1, Map: 1, Depth: 2}
+		B = smallB
 	}
+}
+
+// setBoundsFocus: quick = small bounds; thorough = one variant per top-level
+// field (nf of them), that field filled with the large bounds.
+func setBoundsFocus(nf int) {
+	B = smallB
+	Focus = -1
+	NonFocus = false
+	if !vrt.Thorough() || nf == 0 {
+		// quick tier, or a type that is not in the thorough focus set
+		return
+	}
+	if nf == 1 {
+		B = bigB
+		vrt.Variant(1)
+		return
+	}
+	Focus = vrt.Variant(nf)
+	B.Depth = bigB.Depth
+}
+
+// NonFocus is set while a field other than the focus field is being filled:
+// its integers are restricted to one-byte varints (values stay symbolic).
+var NonFocus bool
+
+func enterStruct() { structDepth++ }
+func leaveStruct() { structDepth-- }
+
+// focusField is called before each encoded field of a struct is filled.
+func focusField(i int) {
+	if structDepth != 1 || Focus < 0 {
+		return
+	}
+	d := B.Depth
+	if i == Focus {
+		B = bigB
+		NonFocus = false
+	} else {
+		B = smallB
+		NonFocus = true
+	}
+	B.Depth = d
 }
 
 // FillSmall restricts integers drawn by the generated fillers to one-byte
@@ -40,7 +98,7 @@ func fillTime(nm string, v *time.Time) {
 	s := vrt.I64(nm + ".sec")
 	ns := vrt.I64(nm + ".nsec")
 	vrt.Assume(vrt.And(ns >= 0, ns < 1000000000))
-	if FillSmall {
+	if FillSmall || NonFocus {
 		vrt.Assume(vrt.And(vrt.And(s >= -64, s < 64), ns < 64))
 	}
 	*v = time.Unix(s, ns)
